@@ -1160,3 +1160,140 @@ Qed.
 Lemma digest_hypotheses_satisfiable :
   (forall a b, enc a = enc b -> a = b) /\ (forall a, good (enc a)).
 Proof. split; [exact enc_inj|exact enc_good]. Qed.
+
+(* ------------------------------------------------------------------ a whole attribute: position by position *)
+(* (since 8d03027) the flattened attribute has exactly the items and words of the original, each
+   the resolution of the one at the same position; nothing is merged, dropped or reordered *)
+Definition item_rel (rl : rules) (f : str -> rres) (x y : str * option (list str)) : Prop :=
+  (if r_key rl then f (fst x) = RStr (fst y) else fst y = fst x) /\
+  match snd x, snd y with
+  | None, None => True
+  | Some vs, Some ws => if r_val rl then Forall2 (fun v w => f v = RStr w) vs ws else ws = vs
+  | _, _ => False
+  end.
+
+Lemma map_res_spec : forall f l t, map_res f l = Some t <-> Forall2 (fun v w => f v = RStr w) l t.
+Proof.
+  intros f. induction l as [|x l IH]; intros t; simpl.
+  - split; [intros H; inversion H; constructor|intros H; inversion H; reflexivity].
+  - destruct (f x) as [y|] eqn:E.
+    + destruct (map_res f l) as [t'|] eqn:M.
+      * split.
+        -- intros H. inversion H; subst. constructor; [assumption|apply IH; reflexivity].
+        -- intros H. inversion H as [|? w ? t'' Hx Hl]; subst. rewrite E in Hx. inversion Hx; subst.
+           apply IH in Hl. inversion Hl; subst. reflexivity.
+      * split; [discriminate|]. intros H. inversion H as [|? w ? t'' Hx Hl]; subst.
+        apply IH in Hl. discriminate.
+    + split; [discriminate|]. intros H. inversion H as [|? w ? t'' Hx Hl]; subst. rewrite E in Hx. discriminate.
+Qed.
+
+Lemma map_attr_spec : forall rl f a b, map_attr rl f a = Some b <-> Forall2 (item_rel rl f) a b.
+Proof.
+  intros rl f. induction a as [|[k v] a IH]; intros b.
+  - simpl. split; [intros H; inversion H; constructor|intros H; inversion H; reflexivity].
+  - cbn [map_attr]. split.
+    + intros H.
+      destruct (if r_key rl then f k else RStr k) as [k'|] eqn:K; [|discriminate].
+      assert (HK : if r_key rl then f k = RStr k' else k' = k).
+      { destruct (r_key rl); [assumption|inversion K; reflexivity]. }
+      destruct v as [vs|].
+      * destruct (r_val rl) eqn:RV.
+        -- destruct (map_res f vs) as [vs'|] eqn:M; [|discriminate].
+           destruct (map_attr rl f a) as [t|] eqn:T; [|discriminate]. inversion H; subst.
+           constructor; [|apply IH; reflexivity]. split; [exact HK|]. simpl. rewrite RV. apply map_res_spec. assumption.
+        -- destruct (map_attr rl f a) as [t|] eqn:T; [|discriminate]. inversion H; subst.
+           constructor; [|apply IH; reflexivity]. split; [exact HK|]. simpl. rewrite RV. reflexivity.
+      * destruct (map_attr rl f a) as [t|] eqn:T; [|discriminate]. inversion H; subst.
+        constructor; [|apply IH; reflexivity]. split; [exact HK|exact I].
+    + intros H. inversion H as [|? [k' w] ? t [HK HV] Hl]; subst. simpl in HK, HV.
+      apply IH in Hl. rewrite Hl.
+      assert (K : (if r_key rl then f k else RStr k) = RStr k').
+      { destruct (r_key rl); [assumption|subst; reflexivity]. }
+      rewrite K. destruct v as [vs|]; destruct w as [ws|]; try contradiction; [|reflexivity].
+      destruct (r_val rl).
+      * apply map_res_spec in HV. rewrite HV. reflexivity.
+      * subst. reflexivity.
+Qed.
+
+(* the words of an attribute in order, each tagged "is a name before a colon / a list item" *)
+Definition words (a : pattr) : list (bool * str) :=
+  flat_map (fun kv => (true, fst kv) :: map (pair false) (match snd kv with Some vs => vs | None => [] end)) a.
+
+Definition word_rel (rl : rules) (f : str -> rres) (x y : bool * str) : Prop :=
+  fst y = fst x /\
+  (if (if fst x then r_key rl else r_val rl) then f (snd x) = RStr (snd y) else snd y = snd x).
+
+Lemma items_words : forall rl f a b, Forall2 (item_rel rl f) a b -> Forall2 (word_rel rl f) (words a) (words b).
+Proof.
+  intros rl f a b H. induction H as [|[k v] [k' w] a b [HK HV] Hl IH]; [constructor|].
+  simpl in HK, HV. cbn [words flat_map fst snd]. fold (words a). fold (words b).
+  constructor; [split; [reflexivity|exact HK]|]. apply Forall2_app; [|exact IH].
+  destruct v as [vs|]; destruct w as [ws|]; try contradiction; [|constructor].
+  destruct (r_val rl) eqn:RV.
+  - induction HV; simpl; constructor; [split; [reflexivity|simpl; rewrite RV; assumption]|assumption].
+  - subst. induction vs; simpl; constructor; [split; [reflexivity|simpl; rewrite RV; reflexivity]|assumption].
+Qed.
+
+Lemma Forall2_compose {A B C} : forall (R1 : A -> B -> Prop) (R2 : B -> C -> Prop) (R : A -> C -> Prop),
+  (forall x y z, R1 x y -> R2 y z -> R x z) ->
+  forall a b c, Forall2 R1 a b -> Forall2 R2 b c -> Forall2 R a c.
+Proof.
+  intros R1 R2 R HR a b c H1. revert c. induction H1; intros c H2; inversion H2; subst; constructor; eauto.
+Qed.
+
+Lemma item_rel_compose : forall rl (f1 f2 : str -> rres) x y z,
+  item_rel rl f1 x y -> item_rel rl f2 y z ->
+  item_rel rl (fun w => match f1 w with RExc => RExc | RStr m => f2 m end) x z.
+Proof.
+  intros rl f1 f2 [k v] [k1 v1] [k2 v2] [K1 V1] [K2 V2]. simpl in *. split; simpl.
+  - destruct (r_key rl); [rewrite K1; exact K2|congruence].
+  - destruct v as [vs|]; destruct v1 as [ms|]; destruct v2 as [ws|]; try contradiction; [|exact I].
+    destruct (r_val rl); [|congruence].
+    apply (Forall2_compose (fun v w => f1 v = RStr w) (fun v w => f2 v = RStr w)) with (b := ms); try assumption.
+    intros a b c H1 H2. rewrite H1. exact H2.
+Qed.
+
+Lemma Forall2_len {A B} : forall (R : A -> B -> Prop) a b, Forall2 R a b -> length a = length b.
+Proof. intros R a b H. induction H; simpl; [reflexivity|f_equal; assumption]. Qed.
+
+(* the two passes of the flattener over one attribute *)
+Lemma flatten_attr_positional : forall hash root rl strict rp coords a out,
+  flatten_attr hash root rl strict rp coords a = Some out ->
+  exists b, out = attr_str b /\
+    Forall2 (item_rel rl (flatten_ref hash root rl strict rp coords)) a b /\
+    Forall2 (word_rel rl (flatten_ref hash root rl strict rp coords)) (words a) (words b) /\
+    length b = length a /\ length (words b) = length (words a).
+Proof.
+  intros hash root rl strict rp coords a out H. unfold flatten_attr, flatten_attr_gen in H.
+  destruct (map_attr rl (resolve_gen true root rl strict rp coords) a) as [a1|] eqn:M1; [|discriminate].
+  destruct (map_attr rl (adapt hash root rl strict) a1) as [a2|] eqn:M2; [|discriminate].
+  inversion H; subst. apply map_attr_spec in M1, M2.
+  assert (F : Forall2 (item_rel rl (flatten_ref hash root rl strict rp coords)) a a2).
+  { apply (Forall2_compose _ _ _ (item_rel_compose rl _ _) _ _ _ M1 M2). }
+  exists a2. splits; [reflexivity|exact F|apply items_words; exact F| |].
+  - symmetry. apply (Forall2_len _ _ _ F).
+  - symmetry. apply (Forall2_len _ _ _ (items_words _ _ _ _ F)).
+Qed.
+
+(* the dict version lost an occurrence: cell methods over an axis named twice, and two spellings
+   of one target *)
+Definition pos_tree : group :=
+  G [] [s "x"; s "y"] [(s "x", 1); (s "y", 1)]
+    [G (s "m") [] [(s "q1", 0)] [G (s "k") [] [(s "q0", 0)] []]].
+
+Lemma dict_version_loses_occurrences : exists rl1 rl2,
+  lookup_rules "cell_methods" flattening_rules_table = Some rl1 /\
+  lookup_rules "geometry" flattening_rules_table = Some rl2 /\
+  (* "x: y: maximum y: x: mean" *)
+  flatten_attr (fun x => x) pos_tree rl1 false [s "k"; s "m"] None
+     [(s "x", Some []); (s "y", Some [s "maximum"]); (s "y", Some []); (s "x", Some [s "mean"])]
+     = Some (s "x: y: maximum y: x: mean") /\
+  flatten_attr_dict (fun x => x) pos_tree rl1 false [s "k"; s "m"] None
+     [(s "x", Some []); (s "y", Some [s "maximum"]); (s "y", Some []); (s "x", Some [s "mean"])]
+     = Some (s "x: mean y:") /\
+  (* "../q1 /m/q1": one variable named relatively and absolutely *)
+  flatten_attr (fun x => x) pos_tree rl2 false [s "k"; s "m"] None [(s "../q1", None); (s "/m/q1", None)]
+     = Some (s "m__q1 m__q1") /\
+  flatten_attr_dict (fun x => x) pos_tree rl2 false [s "k"; s "m"] None [(s "../q1", None); (s "/m/q1", None)]
+     = Some (s "m__q1").
+Proof. eexists. eexists. splits; vm_compute; reflexivity. Qed.
